@@ -63,6 +63,27 @@ class CountedIterable(object):
             yield self.pulls - 1
 
 
+def host_functions(ctx):
+    """functions a host adds with the documented aggregate types around a collection parameter (extending_yaql: Chain, AnyOf,
+    NotOfType): their collection argument is limited like any library function's"""
+    from yaql.language import specs, yaqltypes
+
+    @specs.parameter('collection', yaqltypes.Chain(yaqltypes.Iterable(), yaqltypes.NotOfType(set)))
+    def host_chain_first(collection):
+        return sum(1 for _ in collection)
+
+    @specs.parameter('collection', yaqltypes.Chain(yaqltypes.NotOfType(set), yaqltypes.Iterable()))
+    def host_chain_last(collection):
+        return sum(1 for _ in collection)
+
+    @specs.parameter('collection', yaqltypes.AnyOf(yaqltypes.Iterable(), yaqltypes.String()))
+    def host_any_of(collection):
+        return collection if isinstance(collection, str) else sum(1 for _ in collection)
+    for f in (host_chain_first, host_chain_last, host_any_of):
+        ctx.register_function(f)
+    return ctx
+
+
 def width(v):
     if isinstance(v, dict):
         return max([len(v)] + [max(width(k), width(x)) for k, x in v.items()])
@@ -300,7 +321,7 @@ def run(rep, tier, seed, keep=False):
         for n in (0, 1, 10):
             engine = yaql.YaqlFactory().create(options={'yaql.limitIterators': n})
             engine_raw = yaql.YaqlFactory().create(options={'yaql.limitIterators': n, 'yaql.convertInputData': False})
-            for ctxname, cx in (('default', yaql.create_context(delegates=True)),):
+            for ctxname, cx in (('default', host_functions(yaql.create_context(delegates=True))),):
                 cases, unswept = sweep_cases(cx, engine)
                 for name, fd in all_fds(cx):
                     allfn.add(name)
